@@ -85,8 +85,8 @@ _XLSX_CLEAN = _nested(B.xlsx_to_dict, "xlsx_clean_cell")
 
 def c12_text_cell(n: int, c0: int, c1: int, c2: int) -> bool:
     """
-    pre: (32 <= c0 <= 126 or c0 == 160 or c0 == 9) and (32 <= c1 <= 126 or c1 == 160 or c1 == 9) and (32 <= c2 <= 126 or c2 == 160 or c2 == 9)
-    post: _ == True
+    vpre: (32 <= c0 <= 126 or c0 == 160 or c0 == 9) and (32 <= c1 <= 126 or c1 == 160 or c1 == 9) and (32 <= c2 <= 126 or c2 == 160 or c2 == 9)
+    vpost: _ == True
     """
     t = S(*((c0, c1, c2)[:n]))
     # reference: trim surrounding white space, NBSP read as a plain space; blank -> no cell
@@ -117,8 +117,8 @@ specialise(
 # ---- b: empty runs ------------------------------------------------------------------------
 def c12_empty_rows(e1: int, e2: int, c0: int, c1: int) -> bool:
     """
-    pre: 33 <= c0 <= 126 and 33 <= c1 <= 126
-    post: _ == True
+    vpre: 33 <= c0 <= 126 and 33 <= c1 <= 126
+    vpost: _ == True
     """
     t = S(c0, c1)
     data1 = (Cell("a"), Cell(t))
@@ -154,9 +154,9 @@ for _e1, _e2 in _WQ:
 
 def c12_empty_rows_range(lo: int, e1: int, e2: int, c0: int) -> bool:
     """
-    pre: lo <= e1 < lo + 4 and 0 <= e2 <= 2
-    pre: 33 <= c0 <= 126
-    post: _ == True
+    vpre: lo <= e1 < lo + 4 and 0 <= e2 <= 2
+    vpre: 33 <= c0 <= 126
+    vpost: _ == True
     """
     return c12_empty_rows(e1, e2, c0, 65)
 
@@ -178,8 +178,8 @@ specialise(
 
 def c12_empty_cols(e1: int, e2: int, c0: int, c1: int) -> bool:
     """
-    pre: 97 <= c0 <= 122 and 97 <= c1 <= 122
-    post: _ == True
+    vpre: 97 <= c0 <= 122 and 97 <= c1 <= 122
+    vpost: _ == True
     """
     h = S(c0, c1)
     first_row = ["type", h + "x"] + [None] * e1 + [h + "y"] + [" "] * e2
@@ -218,10 +218,10 @@ def _md_ok(c: int) -> str:
 
 def c12_markdown(n1: int, n2: int, a0: int, a1: int, b0: int, b1: int, pad: int) -> bool:
     """
-    pre: 32 <= a0 <= 126 and a0 != 124 and a0 != 35 and a0 != 92 and 32 <= a1 <= 126 and a1 != 124 and a1 != 35 and a1 != 92
-    pre: 32 <= b0 <= 126 and b0 != 124 and b0 != 35 and b0 != 92 and 32 <= b1 <= 126 and b1 != 124 and b1 != 35 and b1 != 92
-    pre: 0 <= pad <= 2
-    post: _ == True
+    vpre: 32 <= a0 <= 126 and a0 != 124 and a0 != 35 and a0 != 92 and 32 <= a1 <= 126 and a1 != 124 and a1 != 35 and a1 != 92
+    vpre: 32 <= b0 <= 126 and b0 != 124 and b0 != 35 and b0 != 92 and 32 <= b1 <= 126 and b1 != 124 and b1 != 35 and b1 != 92
+    vpre: 0 <= pad <= 2
+    vpost: _ == True
     """
     t1 = S(*((a0, a1)[:n1]))
     t2 = S(*((b0, b1)[:n2]))
@@ -272,9 +272,9 @@ _PROCESS_CSV = _nested(B.csv_to_dict, "process_csv_data", {"first_column_as_shee
 
 def c12_csv_rows(n1: int, a0: int, a1: int, pad: int, blank_row: bool) -> bool:
     """
-    pre: 32 <= a0 <= 126 and 32 <= a1 <= 126
-    pre: 0 <= pad <= 2
-    post: _ == True
+    vpre: 32 <= a0 <= 126 and 32 <= a1 <= 126
+    vpre: 0 <= pad <= 2
+    vpost: _ == True
     """
     t1 = S(*((a0, a1)[:n1]))
     sp = " " * pad
